@@ -250,6 +250,101 @@ Section Encoder.
 
   Definition items_of (src : list sevent) : list item :=
     flat_map (fun e => match e with SPending => [] | SItem i => [i] end) src.
+
+  (* ---------------------------------------------------------------------------------------
+     The source with its Fuse made explicit.  EncodedBytes holds [source: Fuse<U>]
+     (tokio_stream::adapters::Fuse: `stream: Option<U>`, dropped when U answers None, after
+     which Fuse answers None without touching U).  A Stream may do anything when it is polled
+     again after it returned None (futures' unfold panics, a hand-written stream may invent
+     items): the model's U counts such polls in the ghost [s_after_end] and the poll becomes
+     the explicit panic outcome.  The functions above see the source through the Fuse as a
+     plain event list ("End forever"); [body_trace_src] below is the same machine over the
+     explicit source, and Proofs/Encoder.v shows that the two agree and that the ghost stays 0.
+     --------------------------------------------------------------------------------------- *)
+  Record source := mkSource { s_evs : list sevent;    (* what U still has to say *)
+                              s_ended : bool;         (* U has answered None *)
+                              s_after_end : N;        (* ghost: polls of U after that *)
+                              s_fuse_done : bool }.   (* Fuse has dropped U *)
+  Definition source_init (src : list sevent) : source := mkSource src false 0 false.
+
+  Definition flush_or (none : poll_out) (buf : list N) (s : source) : poll_out * enc_state * source :=
+    if is_empty buf then (none, mkEnc buf None false, s) else (PData buf, mkEnc [] None false, s).
+
+  (* the loop of EncodedBytes::poll_next over Fuse<U>; the four fields of [source] are passed
+     separately so that the recursion is structural in U's remaining events *)
+  Fixpoint enc_loop_s (c : cfg) (buf : list N) (evs : list sevent) (ended : bool) (after : N)
+           (done : bool) : poll_out * enc_state * source :=
+    if done then flush_or PNone buf (mkSource evs ended after true)      (* Fuse: stream is None *)
+    else
+      match evs with
+      | [] =>
+          if ended then                           (* U is polled although it has ended *)
+            (PPanic, mkEnc buf None false, mkSource [] true (after + 1) false)
+          else                                    (* U answers None, Fuse drops it *)
+            flush_or PNone buf (mkSource [] true after true)
+      | SPending :: evs' => flush_or PPending buf (mkSource evs' ended after false)
+      | SItem (IOk m) :: evs' =>
+          let s' := mkSource evs' ended after false in
+          match encode_item c buf m with
+          | EPanic => (PPanic, mkEnc buf None false, s')
+          | EErr buf' status =>
+              let buf'' := ntake (nlen buf) buf' in
+              if is_empty buf'' then (PErr status, mkEnc buf'' None true, s')
+              else (PData buf'', mkEnc [] (Some status) true, s')
+          | EOk buf' =>
+              if yield_threshold c <=? nlen buf' then (PData buf', mkEnc [] None false, s')
+              else enc_loop_s c buf' evs' ended after false
+          end
+      | SItem (IErr status) :: evs' =>
+          let s' := mkSource evs' ended after false in
+          if is_empty buf then (PErr status, mkEnc buf None true, s')
+          else (PData buf, mkEnc [] (Some status) true, s')
+      end.
+
+  Definition enc_poll_src (c : cfg) (s : enc_state) (src : source) : poll_out * enc_state * source :=
+    match e_error s with
+    | Some status => (PErr status, mkEnc (e_buf s) None (e_term s), src)
+    | None =>
+        if e_term s then (PNone, s, src)
+        else enc_loop_s c (e_buf s) (s_evs src) (s_ended src) (s_after_end src) (s_fuse_done src)
+    end.
+
+  Definition body_poll_src (c : cfg) (b : body_state) (src : source)
+    : body_out * body_state * source :=
+    if b_end b then (BNone, b, src)
+    else
+      let '(o, inner, src') := enc_poll_src c (b_inner b) src in
+      match o with
+      | PPending => (BPending, mkBody inner (b_error b) (b_role b) (b_end b), src')
+      | PPanic => (BPanic, mkBody inner (b_error b) (b_role b) (b_end b), src')
+      | PData d => (BFrame (FData d), mkBody inner (b_error b) (b_role b) (b_end b), src')
+      | PErr status =>
+          match b_role b with
+          | Client => (BFrame (FErr status), mkBody inner (b_error b) Client (b_end b), src')
+          | Server => (BFrame (trailers_frame status), mkBody inner (b_error b) Server true, src')
+          end
+      | PNone =>
+          match b_role b with
+          | Client => (BNone, mkBody inner (b_error b) Client (b_end b), src')
+          | Server =>
+              let status := match b_error b with Some st => st | None => st_ok end in
+              (BFrame (trailers_frame status), mkBody inner None Server true, src')
+          end
+      end.
+
+  (* n polls: each result with is_end_stream() after it, and the source as it is left *)
+  Fixpoint body_trace_src (c : cfg) (n : nat) (b : body_state) (src : source)
+    : list (body_out * bool) * source :=
+    match n with
+    | O => ([], src)
+    | S n' => let '(o, b', src') := body_poll_src c b src in
+              let '(l, src'') := body_trace_src c n' b' src' in
+              ((o, body_is_end_stream b') :: l, src'')
+    end.
+
+  Definition run_body_src (c : cfg) (r : role) (src : list sevent) (extra : nat)
+    : list (body_out * bool) * source :=
+    body_trace_src c (poll_budget src + extra) (body_init r) (source_init src).
 End Encoder.
 
 Arguments mkCfg {enc}.
@@ -260,6 +355,8 @@ Arguments SPending {msg}. Arguments SItem {msg}.
 Arguments eff_comp {enc}. Arguments flag_of {enc}. Arguments limit_of {enc}.
 Arguments items_of {msg}.
 Arguments poll_budget {msg}.
+Arguments s_evs {msg}. Arguments s_ended {msg}. Arguments s_after_end {msg}. Arguments s_fuse_done {msg}.
+Arguments mkSource {msg}. Arguments source_init {msg}.
 
 Definition frames_of (l : list body_out) : list bframe :=
   flat_map (fun o => match o with BFrame f => [f] | _ => [] end) l.
@@ -567,14 +664,16 @@ Fixpoint cut_after_none (extra : nat) (l : list (body_out * bool)) : list (body_
 Definition out_es_obs (oe : body_out * bool) : tr := Nd [out_obs (fst oe); obool (snd oe)].
 
 (* is_end_stream() before the first poll, then the polls *)
+(* first the number of times the source was polled after it had ended (ghost of the explicit
+   source), then is_end_stream() before the first poll, then the polls *)
 Definition obs_encode (tbl : list (list N * list N)) (c : cfg cenc) (r : role)
            (src : list (sevent (list N))) (extra : nat) : tr :=
-  Nd (obool (body_is_end_stream (body_init r)) ::
-      map out_es_obs (cut_after_none extra
-        (run_body_es (list N) cenc ser_raw (compress_tbl tbl) c r src extra))).
+  let '(l, s) := run_body_src (list N) cenc ser_raw (compress_tbl tbl) c r src extra in
+  Nd (Nn (s_after_end s) :: obool (body_is_end_stream (body_init r)) ::
+      map out_es_obs (cut_after_none extra l)).
 (* Body::empty(): ended from the start, None to every poll *)
 Definition obs_empty_body (extra : nat) : tr :=
-  Nd (obool true :: repeat (Nd [Nd [Nn 1]; obool true]) (S extra)).
+  Nd (Nn 0 :: obool true :: repeat (Nd [Nd [Nn 1]; obool true]) (S extra)).
 
 Definition uri_obs (u : uri) : tr :=
   Nd [oopt Bs (u_scheme u); oopt Bs (u_authority u); oopt Bs (u_pq u)].
